@@ -13,7 +13,13 @@ def expand(p):
         out += ['L', 'F1'] if o == 'R-' else (['L'] if o == 'R+' else [o])
     return out
 
+_SEQ = {}
 def seq_outcomes(r0, progs):
+    k = (r0, json.dumps(progs))
+    if k not in _SEQ: _SEQ[k] = _seq_outcomes(r0, progs)
+    return _SEQ[k]
+
+def _seq_outcomes(r0, progs):
     """final counts of all sequential orders of the operations (per-thread order kept)"""
     progs = [expand(p) for p in progs]
     outs = set()
@@ -49,13 +55,13 @@ def programs(tier, rnd):
     # the smallest racing programs are enumerated exhaustively, from a positive count first: they contain the
     # windows lookup-CAS vs forget (load .. compare-exchange) and probe vs removal
     for r0 in (1, 2, 0):
-        for a, b in SMALL: P.append((r0, [a, b], (400 if len(a) + len(b) == 2 and 'R-' not in a + b else (110 if r0 else 40)) if tier == 'quick' else 100000))
+        for a, b in SMALL: P.append((r0, [a, b], (400 if len(a) + len(b) == 2 and 'R-' not in a + b else (110 if r0 else 40)) if tier == 'quick' else 5000))
     two = [(['R-', 'L'], ['F1']), (['R+', 'F1'], ['R-']), (['L'], ['F1', 'L']), (['L', 'L'], ['F1']), (['L', 'F1', 'L'], ['F1']), (['L', 'F2'], ['L', 'F1']), (['F1', 'L'], ['F1', 'L'])]
     for r0 in (0, 1, 2):
-        for a, b in two: P.append((r0, [a, b], 20 if tier == 'quick' else 100000))
+        for a, b in two: P.append((r0, [a, b], 20 if tier == 'quick' else 5000))
     three = [(['R-'], ['L'], ['F1']), (['L'], ['L'], ['F1']), (['L'], ['F1'], ['F1']), (['L'], ['L'], ['L'])]
     for r0 in (0, 1):
-        for pr in three: P.append((r0, list(pr), 20 if tier == 'quick' else 100000))
+        for pr in three: P.append((r0, list(pr), 20 if tier == 'quick' else 5000))
     if tier != 'quick':
         for r0 in (0, 1, 2):
             P.append((r0, [['L', 'F1', 'L'], ['F1', 'L'], ['L', 'F2']], 100000))
@@ -116,6 +122,59 @@ def judge(r):
             r['post'], r['post'] + 1, r['rc2'], r['getattr2'])
     return None
 
+def explore(bindir, d, progs, rnd, nrandom, budget_s, tag):
+    """One harness process per program (depth-first enumeration capped by count AND by wall time, then seeded random
+    schedules).  A schedule that does not complete is reported by the watchdog inside the harness (with the schedule).
+    A process cut by our own timeout, or output cut short, is partial coverage -- never a finding.
+    -> runs, stats, findings, broken"""
+    from concurrent.futures import ThreadPoolExecutor
+    jobs = []
+    for k, (r0, pr, mx) in enumerate(progs):
+        txt = 'r0 %d\n' % r0 + ''.join('thread %s\n' % ' '.join(p) for p in pr)
+        pc = post_count(r0, pr)
+        if pc: txt += 'post %d\n' % pc
+        txt += 'dfs %d %d\n' % (mx, budget_s)
+        for _ in range(nrandom):
+            txt += 'sched ' + ' '.join(str(rnd.randrange(len(pr))) for _ in range(24)) + '\n'
+        sp = os.path.join(d, '%s_%d.txt' % (tag, k)); open(sp, 'w').write(txt)
+        jobs.append((k, r0, pr, sp))
+    def one(j):
+        k, r0, pr, sp = j
+        rc, out = run([os.path.join(bindir, 'ptconc'), sp, d], timeout=budget_s + nrandom + 300)
+        return j, rc, out
+    runs = []; findings = []; broken = []
+    st = {'programs': len(progs), 'programs_fully_enumerated': 0, 'programs_truncated_by_count': 0, 'programs_truncated_by_time': 0,
+          'programs_cut_by_timeout': 0, 'hung_schedules': 0}
+    with ThreadPoolExecutor(max_workers=4) as ex:
+        results = list(ex.map(one, jobs))
+    for (k, r0, pr, sp), rc, out in results:
+        mine = []
+        for l in out.split('\n'):
+            if not l.startswith('{'): continue
+            try: r = json.loads(l)
+            except Exception: continue                # a line cut short
+            if 'dfs_complete' in r: st['programs_fully_enumerated'] += 1
+            elif 'dfs_truncated' in r: st['programs_truncated_by_' + r.get('by', 'count')] += 1
+            elif 'hung' in r:
+                st['hung_schedules'] += 1
+                findings.append({'what': 'a schedule does not complete -- %s' % r['hung'],
+                                 'input': {'r0': r['r0'], 'threads': r['progs'], 'schedule': r['sched']},
+                                 'observed': {'steps': r['steps'], 'trace': r['trace'], 'yield point of each worker': r['pos']},
+                                 'sig': {'check': 'hang', 'threads': len(r['progs'])}})
+            elif 'sched' in r: mine.append(r)
+        runs += mine
+        if rc == 124 or (rc != 0 and 'panicked' not in out):
+            # our timeout (or the process was killed): what was observed counts, the rest is not explored
+            st['programs_cut_by_timeout'] += 1
+            if not mine: broken.append({'kind': 'harness-run', 'program': {'r0': r0, 'threads': pr}, 'rc': rc, 'log': out[-600:]})
+        elif rc != 0:
+            # a panic (in the server code under test, or an assertion of the harness): concrete input = the program and
+            # the last schedule that completed before it
+            findings.append({'what': 'the run panicked: ' + ' '.join(out[out.find('panicked'):].split())[:300],
+                             'input': {'r0': r0, 'threads': pr, 'after_schedule': mine[-1]['sched'] if mine else None},
+                             'sig': {'check': 'panic', 'threads': len(pr)}})
+    return runs, st, findings, broken
+
 def run_check(tier, seed):
     ev = Evidence(PROP, tier, seed)
     ev.cov['checker_cmd'] = 'make -C coq Props/C09.vo (coqc 8.16.1, full .vo) + Print Assumptions audit'
@@ -135,16 +194,14 @@ def run_check(tier, seed):
     rnd = random.Random(seed)
     progs = programs(tier, rnd)
     d = os.path.join(SCRATCH, 'ptconc', str(os.getpid())); os.makedirs(d, exist_ok=True)      # per process
-    script = make_script(progs, rnd, 3 if tier == 'quick' else 2000)
-    sp = os.path.join(d, 'c09.txt'); open(sp, 'w').write(script)
     import time as _t; _t0 = _t.time()
-    rc, out = run([os.path.join(bindir, 'ptconc'), sp, d], timeout=900)
+    budget = 20 if tier == 'quick' else 20           # seconds of enumeration per program (the quick caps by count are reached long before)
+    runs, stats, f1, b1 = explore(bindir, d, progs, rnd, 3 if tier == 'quick' else 30, budget, 'c09')
+    findings += f1; broken += b1
+    complete = stats['programs_fully_enumerated']; truncated = stats['programs_truncated_by_count'] + stats['programs_truncated_by_time']
     ev.cov['harness_s'] = round(_t.time() - _t0, 1)
-    runs, complete, truncated = parse_runs(out)
-    if rc != 0:
-        findings.append({'what': 'scheduler run did not complete (panic, deadlock or non-terminating retry loop in the server?)',
-                         'input': {'script': script[:2000]}, 'log': out[-1500:], 'sig': {'check': 'crash'}})
-    exprs = []; shapes = set(); samples = []
+    ev.cov['exploration'] = stats
+    exprs = []; shapes = set(); samples = []; n_sched = len(runs)
     def finding_of(r, bad):
         return {'what': bad, 'input': {'r0': r['r0'], 'threads': r['progs'], 'schedule': r['sched']},
                 'observed': {k: r.get(k) for k in ('trace', 'results', 'rc', 'getattr', 'ninodes', 'post', 'rc2', 'getattr2')},
@@ -157,6 +214,12 @@ def run_check(tier, seed):
         if len(samples) < 3: samples.append(r)
         exprs.append('check_sched %d [%s] %s %s %d %s' % (r0, '; '.join(coq_prog(p) for p in pr), coq_nats(r['sched']), coq_ns(r['trace']), final, coq_ns(r['dones'])))
     if audit['ok'] and exprs:
+        n_sched = len(runs)
+        cap = 8000                                    # schedules replayed in the Coq model (all of them in the quick tier)
+        if len(exprs) > cap:
+            keep = sorted(rnd.sample(range(len(exprs)), cap))
+            exprs = [exprs[i] for i in keep]; runs = [runs[i] for i in keep]
+            ev.cov['model_replay_sampled'] = cap
         fails, errs = coq_check_cases('c09', HEADER, ['(%s)' % e for e in exprs], shard=120)
         for e in errs[:3]: broken.append({'kind': 'correspondence', 'name': 'coq evaluation of cases failed', 'log': e})
         for i in fails[:10]:
@@ -169,9 +232,8 @@ def run_check(tier, seed):
             # the model no longer represents the code: search harder for a failing schedule before giving up --
             # exhaustive enumeration of the small programs (no truncation), judged by the property predicate alone
             deep = [(r0, [a, b], 20000) for r0 in (1, 2, 0) for a, b in SMALL + [(['L', 'L'], ['F1']), (['L'], ['F1', 'L']), (['L', 'F2'], ['L', 'F1'])]]
-            sp2 = os.path.join(d, 'c09_deep.txt'); open(sp2, 'w').write(make_script(deep, rnd, 50))
-            rc2, out2 = run([os.path.join(bindir, 'ptconc'), sp2, d], timeout=1200)
-            runs2, _, _ = parse_runs(out2)
+            runs2, st2, f2, _ = explore(bindir, d, deep, rnd, 50, 25, 'c09_deep')
+            findings += f2
             ev.cov['deep_search_schedules'] = len(runs2)
             for r in runs2:
                 bad = judge(r)
@@ -179,11 +241,11 @@ def run_check(tier, seed):
             if not findings:
                 # last resort: the racing steps may not be separated by a yield point (the scheduler cannot put a
                 # thread between them): run the small programs free-running many times and look at the final counts
-                iters = 100000 if tier == 'quick' else 1000000
+                iters = 100000 if tier == 'quick' else 50000
                 st = [(1, [['R-'], ['L']]), (1, [['F1'], ['L']]), (2, [['L', 'F1'], ['L']]), (1, [['L'], ['L'], ['F1']]), (2, [['F1', 'L'], ['L', 'F1']])]
                 txt = ''.join('r0 %d\n' % r0 + ''.join('thread %s\n' % ' '.join(p) for p in pr) + 'stress %d\n' % iters for r0, pr in st)
                 sp3 = os.path.join(d, 'c09_stress.txt'); open(sp3, 'w').write(txt)
-                rc3, out3 = run([os.path.join(bindir, 'ptconc'), sp3, d], timeout=1800)
+                rc3, out3 = run([os.path.join(bindir, 'ptconc'), sp3, d], timeout=900)
                 for l in out3.split('\n'):
                     if not l.startswith('{"stress"'): continue
                     r = json.loads(l); outs = seq_outcomes(r['r0'], r['progs'])
@@ -195,7 +257,7 @@ def run_check(tier, seed):
                                              'sig': {'check': 'concurrent-stress', 'threads': len(r['progs'])}})
                 ev.cov['stress_runs'] = iters * len(st)
     shutil.rmtree(d, ignore_errors=True)
-    ev.cov['evaluations'] = len(runs)
+    ev.cov['evaluations'] = n_sched
     ev.cov['distinct_nontrivial'] = len(shapes)
     ev.cov['programs'] = len(progs); ev.cov['programs_fully_enumerated'] = complete; ev.cov['programs_truncated'] = truncated
     ev.cov['rule'] = ('depth-first enumeration of schedules (at yield-point granularity) of %d small 2- and 3-thread programs of lookup / forget / readdirplus-entry (delivered or given back) operations over initial counts 0..2; '
